@@ -59,3 +59,11 @@ claim("C03", "Lean 4 proof that upward+downward on one connective yields exactly
       "Tied to /repo: upward();downward() on single connectives compared in exact arithmetic with the closed-form hull and with the model; thorough "
       "tier enumerates the n=2 quarter-grid sub-space exhaustively.",
       NOTE_COMMON, "DESIGN.md §6 C03")
+claim("C20", "Lean 4 proofs of locality (frame), finality of classical verdicts (soundness+monotonicity) and restricted<=full (least fixpoint) + differential correspondence with observed traversal",
+      "Theorems C20_local / C20_local_pass (if the sweep schedules only call formulae of a sub-graph closed under operands and generated inner "
+      "formulae, infer with any threshold/query/step limit leaves every formula outside it untouched), C20_verdict_final (on data with a consistent "
+      "reading a classically TRUE/FALSE formula keeps exactly those bounds under any further inference), C20_restricted_not_tighter (a restricted "
+      "infer is nowhere tighter than the full arrest-free fixpoint). Tied to /repo: multi-root KBs, random source and query nodes; the observed call "
+      "log must stay inside the source's sub-graph (the hypothesis of C20_local), snapshots outside must be identical, restricted results compared "
+      "with the following full fixpoint, early query verdicts with converge=True runs; all runs replayed in the model.",
+      NOTE_COMMON + " Propositional theories; quantified first-order theories are exercised through the first-order correspondence streams only.", "DESIGN.md §6 C20")
